@@ -133,7 +133,8 @@ def plan_for(pid, tier, seed):
                                  "the reference semantics Str.tla incl. the transcribed UTF-8/UTF-16 decoders (cross-validated against std on every input)"])
     if pid == "C16":
         return dict(level="model_checking", mc=[], special=[],
-                    traces=coll_corpus(tier, seed, COLL_GENS[pid]) + str_corpus(tier, seed, ["spanics", "srandom"]),
+                    traces=coll_corpus(tier, seed, COLL_GENS[pid]) + str_corpus(tier, seed, ["spanics", "srandom"])
+                           + arena_corpus(tier, seed, ["apanics"]),
                     assumptions=["TLC and the Json/IOUtils community modules", "Coll.tla / Str.tla reference semantics (cross-validated against std)",
                                  "exactly one programmed panic per call (a second panic while unwinding aborts; outside the property)"])
     if pid in COLL_GENS:
